@@ -14,7 +14,8 @@ TIMEOUT = {'quick': 1200, 'thorough': 7200}
 MUST_HIT = ['NonInterference.observe-others', 'FreshLoader.compare', 'IdentitySweep.pairs',
             'Mutation.new', 'Mutation.delete', 'Mutation.setattr', 'Mutation.relate', 'Mutation.unrelate',
             'Mutation.append_attribute', 'Mutation.insert_attribute', 'Mutation.delete_attribute',
-            'Mutation.define_unique_identifier', 'Mutation.define_class', 'History.late-create-table']
+            'Mutation.define_unique_identifier', 'Mutation.define_class', 'History.late-create-table',
+            'Build.generator-integer', 'Build.generator-uuid', 'Build.generator-default']
 MUST_REACH = ['xtuml/load.py:ModelLoader.build_metamodel', 'xtuml/load.py:ModelLoader.populate_classes',
               'xtuml/load.py:ModelLoader.populate_associations', 'xtuml/meta.py:MetaClass.append_attribute',
               'xtuml/meta.py:MetaClass.insert_attribute', 'xtuml/meta.py:MetaClass.delete_attribute',
@@ -86,7 +87,8 @@ def first_diff(a, b):
 
 def containers(m):
     '''id -> description of every mutable container the listed mutations touch'''
-    out = {id(m.metaclasses): 'metaclasses dict', id(m.associations): 'associations list'}
+    out = {id(m.metaclasses): 'metaclasses dict', id(m.associations): 'associations list',
+           id(m.id_generator): 'id generator'}
     for K, mc in m.metaclasses.items():
         out[id(mc)] = 'MetaClass %s' % K
         out[id(mc.clazz)] = 'class object %s' % K
@@ -219,6 +221,7 @@ def run_history(ctx, rng):
     loader = xtuml.ModelLoader()
     accepted = []
     models = []          # [metamodel, last observation]
+    peeks = []           # the next id of each metamodel's generator
     plan = [('input', t) for t in fragments(rng)]
     nbuilds = rng.randint(2, 4)
     for _ in range(nbuilds):
@@ -233,8 +236,15 @@ def run_history(ctx, rng):
             accepted.append(step[1])
             log.append(('input', step[1][:60]))
         elif step[0] == 'build':
+            # the generator is given (every build its own) or left to the loader (which then has to give every
+            # build its own as well)
+            how = rng.choice(('integer', 'integer', 'uuid', 'default', 'default'))
+            ctx.hit('Build.generator-' + how)
             try:
-                m = loader.build_metamodel(xtuml.IntegerGenerator())
+                if how == 'default':
+                    m = loader.build_metamodel()
+                else:
+                    m = loader.build_metamodel(xtuml.IntegerGenerator() if how == 'integer' else xtuml.UUIDGenerator())
             except (xtuml.ParsingException, xtuml.MetaException):
                 continue
             obs = observe(m)
@@ -261,7 +271,13 @@ def run_history(ctx, rng):
                     return log, ('shared-object/%s' % cat.replace(' ', '-'),
                                  'two builds share %s' % ', '.join(sorted(set(mine[i] for i in shared))[:4]))
             models.append([m, obs])
-            log.append(('build', len(models)))
+            log.append(('build', len(models), how))
+            # building one metamodel draws no id from the generator of another
+            for i, (other, _) in enumerate(models[:-1]):
+                if other.id_generator.peek() != peeks[i]:
+                    return log, ('interference/build-advances-generator',
+                                 'build number %d advanced the id generator of metamodel %d' % (len(models), i + 1))
+            peeks.append(m.id_generator.peek())
         else:
             if not models:
                 continue
@@ -274,6 +290,7 @@ def run_history(ctx, rng):
             if new_obs != models[j][1] and len(models) > 1:
                 interesting = True
             models[j][1] = new_obs
+            peeks[j] = models[j][0].id_generator.peek()
             ctx.hit('NonInterference.observe-others', len(models) - 1)
             for i, (other, obs) in enumerate(models):
                 if i == j:
@@ -283,6 +300,10 @@ def run_history(ctx, rng):
                     return log, ('interference/%s' % desc[0],
                                  '%s on metamodel %d changed metamodel %d: %s'
                                  % (desc[0], j + 1, i + 1, first_diff(obs, now)))
+                if other.id_generator.peek() != peeks[i]:
+                    return log, ('interference/%s' % desc[0],
+                                 '%s on metamodel %d advanced the id generator of metamodel %d'
+                                 % (desc[0], j + 1, i + 1))
     return log, (None, interesting)
 
 
